@@ -488,6 +488,45 @@ func finish(prop, tier string, seed int64, root, outRoot string, jobs []JobSpec,
 		fmt.Printf("  rule=%s class=%s case=%s#%d: %s\n", v.Rule, v.Class, v.Kind, v.Idx, v.Msg)
 		exit = 1
 	}
+	// Every listed known finding gets its line on a tree that still has the defect, whether or not this run's
+	// exploration happened to meet it: its recorded witness (findings/*.json named in KNOWN_FINDINGS.txt) is
+	// re-executed. A witness that no longer fails is reported as a NOTE (the defect is gone; the entry is stale).
+	for _, k := range known {
+		if k.Prop != prop || reported[k.Rule+"|"+k.Class] {
+			continue
+		}
+		for _, w := range strings.Fields(k.Text) {
+			if !strings.HasPrefix(w, "findings/") || !strings.HasSuffix(w, ".json") {
+				continue
+			}
+			b, err := os.ReadFile(filepath.Join(root, w))
+			if err != nil {
+				fmt.Printf("NOTE known finding %s %s: witness %s unreadable: %v\n", k.Rule, k.Class, w, err)
+				continue
+			}
+			var rf replayFile
+			if json.Unmarshal(b, &rf) != nil || rf.Case == nil {
+				fmt.Printf("NOTE known finding %s %s: witness %s is no replay file\n", k.Rule, k.Class, w)
+				continue
+			}
+			fired := false
+			for _, v := range checkCase(prop, rf.Case, false).Viol {
+				cl := v.Class
+				if cl == "" {
+					cl = witnessClass(rf.Case, v.Rule)
+				}
+				if v.Rule == k.Rule && cl == k.Class {
+					fired = true
+				}
+			}
+			if fired {
+				reported[k.Rule+"|"+k.Class] = true
+				fmt.Printf("KNOWN-FINDING: %s\n", k.Text)
+			} else {
+				fmt.Printf("NOTE known finding %s %s: its recorded witness %s no longer fails\n", k.Rule, k.Class, w)
+			}
+		}
+	}
 	seenOther := map[string]bool{}
 	for _, v := range others {
 		if !seenOther[v.Rule] {
